@@ -222,6 +222,7 @@ def handle (req : Json) : Except String Json := do
   let root ← resolveRef main rootJ
   let troot ← resolveRef twin rootJ
   let origAt := snapshot main.w root
+  if !wfB main.w then throw "model world is not well-formed (a reference points outside the world)"
   let mut branches : List String := []
   let model : Obs ← match copyGraph pol main.w root with
     | .error .unsupported => throw "copy outside the modelled fragment"
